@@ -56,6 +56,9 @@ pub fn jobs(ctx: &Ctx) -> Vec<Job> {
                     }
                 }
                 // count-width class edges get extra lengths
+                for _ in 0..4 {
+                    push(&mut jobs, FAMS[1], mode, level, v, rng.below(cap + 1), &mut k);
+                }
                 if [9usize, 10, 26, 27].contains(&v) {
                     for _ in 0..20 {
                         push(&mut jobs, FAMS[2], mode, level, v, rng.below(cap + 1), &mut k);
@@ -68,7 +71,7 @@ pub fn jobs(ctx: &Ctx) -> Vec<Job> {
                             push(&mut jobs, FAMS[3], mode, level, v, l, &mut k);
                         }
                     } else {
-                        for _ in 0..ctx.scale(120) {
+                        for _ in 0..ctx.scale(500) {
                             push(&mut jobs, FAMS[3], mode, level, v, rng.below(cap + 1), &mut k);
                         }
                     }
